@@ -670,6 +670,50 @@ func (w *world) countRoundResults() {
 	}
 }
 
+// specC08: property C08 on the non-staking applications. Every transaction that fails in DeliverTx
+// must leave the complete consensus state (every key of the application state tree) unchanged; the
+// driver calls ExecuteTx directly, so no fee or nonce is charged and "unchanged" is exact.
+var specC08 bool
+
+func (w *world) snapshot() map[string]string {
+	ctx := w.appState.NewContext(abciAPI.ContextEndBlock)
+	defer ctx.Close()
+	it := ctx.State().NewIterator(ctx)
+	defer it.Close()
+	m := map[string]string{}
+	for it.Rewind(); it.Valid(); it.Next() {
+		m[string(it.Key())] = string(it.Value())
+	}
+	return m
+}
+
+// checkUnchanged reports the first (smallest) key on which the state differs from the snapshot.
+func (w *world) checkUnchanged(before map[string]string, method string) {
+	after := w.snapshot()
+	var diff []string
+	for k, v := range before {
+		if v2, ok := after[k]; !ok {
+			diff = append(diff, k+"\x00removed")
+		} else if v2 != v {
+			diff = append(diff, k+"\x00changed")
+		}
+	}
+	for k := range after {
+		if _, ok := before[k]; !ok {
+			diff = append(diff, k+"\x00added")
+		}
+	}
+	if len(diff) == 0 {
+		w.count("c08:failed-tx-state-unchanged")
+		return
+	}
+	sort.Strings(diff)
+	p := strings.SplitN(diff[0], "\x00", 2)
+	if w.fatal == "" {
+		w.fatal = fmt.Sprintf("c08-failed-tx-changed-state:%s:key-prefix-%02x:%s|failed %s transaction left %d state keys different, first: key %x %s", method, p[0][0], p[1], method, len(diff), p[0], p[1])
+	}
+}
+
 // deliver runs one transaction through the owning application's ExecuteTx (DeliverTx).
 func (w *world) deliver(appName string, signer signature.PublicKey, method transaction.MethodName, body any) string {
 	if !w.inBlock {
@@ -683,9 +727,19 @@ func (w *world) deliver(appName string, signer signature.PublicKey, method trans
 	defer ctx.Close()
 	ctx.SetTxSigner(signer)
 	tx := &transaction.Transaction{Method: method, Body: cbor.Marshal(body)}
+	var before map[string]string
+	if specC08 {
+		before = w.snapshot()
+	}
 	err := w.guard(appName, "DeliverTx", func() error { return a.ExecuteTx(ctx, tx) })
 	if w.fatal != "" {
 		return "fatal"
+	}
+	if err != nil && specC08 {
+		w.checkUnchanged(before, string(method))
+		if w.fatal != "" {
+			return "fatal"
+		}
 	}
 	if err != nil {
 		if abciAPI.IsUnavailableStateError(err) {
@@ -1038,7 +1092,14 @@ func run(ops []string, res *hlib.Result) (string, int) {
 				ctx := w.appState.NewContext(abciAPI.ContextDeliverTx)
 				ctx.SetTxSigner(cast.outsider.Public())
 				tx := &transaction.Transaction{Method: transaction.MethodName(f[1]), Body: []byte{0xff, 0x00, 0x13}}
-				_ = w.guard(roothashApp.AppName, "DeliverTx", func() error { return a.ExecuteTx(ctx, tx) })
+				var before map[string]string
+				if specC08 {
+					before = w.snapshot()
+				}
+				err := w.guard(roothashApp.AppName, "DeliverTx", func() error { return a.ExecuteTx(ctx, tx) })
+				if err != nil && specC08 && w.fatal == "" {
+					w.checkUnchanged(before, "raw:"+f[1])
+				}
 				ctx.Close()
 			}
 		default:
@@ -1344,8 +1405,10 @@ func main() {
 	replay := flag.String("replay", "", "replay file (one op per line)")
 	corpus := flag.String("corpus", "", "corpus dir, run first (files rh-*.txt)")
 	zd := flag.Bool("zero-debond", true, "generate worlds with staking DebondingInterval = 0 too (a fatal path is known there, see corpus/C10/rh-zero-debonding-expired-committee-node.txt)")
+	spec := flag.String("spec", "c10", "c10: fatal errors/panics of block execution; c08: failed transactions leave the state unchanged")
 	flag.Parse()
 	zeroDebond = *zd
+	specC08 = *spec == "c08"
 	setup()
 
 	res := hlib.NewResult("rhdrv", *seed)
@@ -1356,6 +1419,11 @@ func main() {
 		res.Cases++
 		res.Ops += len(ops)
 		if fatal == "" {
+			return
+		}
+		if specC08 && !strings.HasPrefix(fatal, "c08-") {
+			// fatal block-execution paths are property C10's subject; the case simply ends there
+			res.Count("c08:case-ended-by-c10-fatal")
 			return
 		}
 		sig, _ := sigOf(fatal)
@@ -1375,7 +1443,11 @@ func main() {
 		if strings.Contains(detail, "panic") {
 			kind = "panic"
 		}
-		res.Fail(hlib.Failure{Kind: kind, Detail: "C10 " + sig + ": " + detail, Case: min, Seed: caseSeed, Sig: sig})
+		label := "C10 "
+		if specC08 {
+			label = "C08 "
+		}
+		res.Fail(hlib.Failure{Kind: kind, Detail: label + sig + ": " + detail, Case: min, Seed: caseSeed, Sig: sig})
 	}
 
 	if *replay != "" {
